@@ -24,9 +24,9 @@ import (
 
 // Lane is one relay with one receiver that stops reading.
 type Lane struct {
-	Cached  bool `json:"cached,omitempty"` // envelopes are put before the receiver subscribes (cache hand-over)
-	N       int  `json:"n"`                // envelopes, 17..40
-	StallMs int  `json:"stallms"`          // how long the reader stays away after the producer started
+	Cached  bool `json:"cached,omitempty"`  // envelopes are put before the receiver subscribes (cache hand-over)
+	N       int  `json:"n"`                 // envelopes, 17..40
+	StallMs int  `json:"stallms"`           // how long the reader stays away after the producer started
 	ReadGap int  `json:"readgap,omitempty"` // microseconds between two reads once the reader is back
 }
 
